@@ -77,7 +77,7 @@ func (h *DirHandler) AddOut(msg *fbb.Message) error {
 		return err
 	}
 
-	return ioutil.WriteFile(path.Join(h.MBoxPath, DIR_OUTBOX, msg.MID()+Ext), data, 0644)
+	return writeFileAtomic(path.Join(h.MBoxPath, DIR_OUTBOX, msg.MID()+Ext), data, 0644)
 }
 
 func (h *DirHandler) ProcessInbound(msgs ...*fbb.Message) (err error) {
@@ -92,7 +92,7 @@ func (h *DirHandler) ProcessInbound(msgs ...*fbb.Message) (err error) {
 			return err
 		}
 
-		if err = ioutil.WriteFile(filename, data, 0664); err != nil {
+		if err = writeFileAtomic(filename, data, 0664); err != nil {
 			return fmt.Errorf("Unable to write received message (%s): %s", filename, err)
 		}
 	}
@@ -288,5 +288,17 @@ func SetUnread(msg *fbb.Message, unread bool) error {
 	if filePath == "" {
 		return fmt.Errorf("Missing X-FilePath header")
 	}
-	return ioutil.WriteFile(filePath, data, 0644)
+	return writeFileAtomic(filePath, data, 0644)
+}
+
+// writeFileAtomic writes data to a temporary file in the same directory and renames it to filename, so that
+// a crash never leaves a partially written message under its final name.
+//
+// The temporary file does not have the message file extension and is ignored when a folder is loaded.
+func writeFileAtomic(filename string, data []byte, perm os.FileMode) error {
+	tmp := filename + ".tmp"
+	if err := ioutil.WriteFile(tmp, data, perm); err != nil {
+		return err
+	}
+	return os.Rename(tmp, filename)
 }
